@@ -136,3 +136,35 @@ func ZZ_C08_K1e_cmp() {
 	zzAssert("K1e.prefix", (a.cmp(p) == 0) == isPrefix)
 	zzReach("K1e.done")
 }
+
+// K1f: the same order statements on LONG keys (6 data bytes = 48 bits, prefix lengths beyond four
+// full bytes), where cmp compares whole bytes first and only the tail bit by bit - production keys
+// are 160 bits, so this is the regime the tree actually runs in.
+//
+//zz:harness unwind=80
+//zz:reach K1f.done
+func ZZ_C08_K1f_cmp_long_keys() {
+	maxBytes := zzParam("longbytes", 6)
+	n := 8 * maxBytes
+	da, db := zzBytes("a", maxBytes), zzBytes("b", maxBytes)
+	a, b := newNodeKey(da, n), newNodeKey(db, n)
+	ab, ba := a.cmp(b), b.cmp(a)
+	zzAssert("K1f.antisym", ab == -ba)
+	zzAssert("K1f.zero-iff-equal", (ab == 0) == a.equals(b))
+	lt := false
+	for i := n - 1; i >= 0; i-- {
+		x, y := zzBitOf(da, i), zzBitOf(db, i)
+		if x != y {
+			lt = x < y
+		}
+	}
+	zzAssert("K1f.lexicographic", (ab < 0) == lt)
+	pl := zzConcrete(zzInt("prefixLen"), 33, n)
+	p := newNodeKey(db, pl)
+	isPrefix := true
+	for i := 0; i < pl; i++ {
+		isPrefix = isPrefix && zzBitOf(da, i) == zzBitOf(db, i)
+	}
+	zzAssert("K1f.prefix", (a.cmp(p) == 0) == isPrefix)
+	zzReach("K1f.done")
+}
